@@ -306,7 +306,39 @@ class Effects:
                         recv = c.arg(0)
                         if param_idx == 2:
                             return parent, ('ok', deep_strip(recv))
+            if cn.split("::")[-1] in ("map_err", "or_else", "unwrap_or_else") and "Result::" in cn:
+                for i, a in enumerate(c.t["args"]):
+                    if a["k"] in ("move", "copy") and a["pl"]["l"] == clo_local and "p" not in a["pl"] and i >= 1:
+                        recv = deep_strip(c.arg(0))
+                        # the failure payload of x.map(f) is the failure payload of x
+                        while recv[0] == 'call' and canon(recv[1]).endswith("Result::map") and len(recv[2]) == 2:
+                            recv = deep_strip(recv[2][0])
+                        if param_idx == 2:
+                            return parent, ('vfield', recv, 'Err', 0)
         return None
+
+    def in_parent(self, cb, t, depth=0):
+        """a closure-body term in the term space of the function that defines the closure: captures are replaced by what was
+        captured, the closure's own argument by what the combinator feeds it (Ok/Some payload for map/and_then, Err payload for
+        map_err). Returns (parent_body, term); unchanged when `cb` is not a closure."""
+        if cb.kind != "Closure" or depth > 3:
+            return cb, t
+        pb, lt = self.lift(cb, t)
+        if pb is cb:
+            return cb, t
+        fed = self.closure_arg_source(cb, 2)
+        if fed is not None:
+            arg = fed[1]
+            nm = cb.local_name(2)
+
+            def rep(x):
+                if isinstance(x, tuple) and x and x[0] == 'param' and x[1] == 2 and (len(x) < 3 or x[2] == nm):
+                    return arg
+                if isinstance(x, tuple) and x and x[0] not in LEAF_TAGS:
+                    return map_children(x, rep)
+                return x
+            lt = rep(lt)
+        return self.in_parent(pb, lt, depth + 1) if pb.kind == "Closure" else (pb, lt)
 
 
 def write_sites(prog, eff):
